@@ -258,11 +258,26 @@ def _attr_type_chain(f: FuncInfo):
     """{member: 'handled' | 'raises'} from `type_ == AttributeType.X` if-chains."""
     out = {}
     for n in own_nodes(f.node):
-        if isinstance(n, ast.If) and isinstance(n.test, ast.Compare) and len(n.test.comparators) == 1:
-            for mem in _attr_type_members(n.test.comparators[0]):
+        if isinstance(n, ast.If):
+            for mem in _test_members(n.test):
                 only_raise = all(isinstance(s, ast.Raise) for s in n.body)
                 out[mem] = "raises" if only_raise else "handled"
     return out
+
+
+def _test_members(test) -> list[str]:
+    """Members of AttributeType a dispatch test selects: `x == AttributeType.X`, `x in (…)`, or an `or` of such tests."""
+    if isinstance(test, ast.BoolOp) and isinstance(test.op, ast.Or):
+        out = []
+        for v in test.values:
+            m_ = _test_members(v)
+            if not m_:
+                return []
+            out += m_
+        return out
+    if isinstance(test, ast.Compare) and len(test.comparators) == 1 and isinstance(test.ops[0], (ast.Eq, ast.Is, ast.In)):
+        return _attr_type_members(test.comparators[0])
+    return []
 
 
 def _attr_type_members(e) -> list[str]:
@@ -280,8 +295,8 @@ def _branch_fields(f: FuncInfo, proto_param: str, fields: set) -> dict:
     """{AttributeType member: set of AttributeProto fields touched through the proto parameter in that branch}."""
     out = {}
     for n in own_nodes(f.node):
-        if isinstance(n, ast.If) and isinstance(n.test, ast.Compare) and len(n.test.comparators) == 1:
-            mems = _attr_type_members(n.test.comparators[0])
+        if isinstance(n, ast.If):
+            mems = _test_members(n.test)
             if mems:
                 got = set()
                 for b in n.body:
@@ -541,6 +556,12 @@ def _proto_writes(ctx, f):
     return out
 
 
+def _is_callee(attr) -> bool:
+    """`obj.method` in `obj.method(...)`: a method may look at the whole object."""
+    p_ = getattr(attr, "_parent", None)
+    return isinstance(p_, ast.Call) and p_.func is attr
+
+
 def _closure_names(f, exprs, depth=4) -> set[str]:
     """Texts of names/attributes the expressions data-depend on, through the function's locals and loop variables."""
     seen_names: set[str] = set()
@@ -553,7 +574,11 @@ def _closure_names(f, exprs, depth=4) -> set[str]:
                 if isinstance(x, ast.Attribute):
                     out.add(norm(x))
                 if isinstance(x, ast.Name):
-                    out.add(x.id)
+                    # a name read only as the root of an attribute chain (`from_.type`) stands for that field, not for the
+                    # whole object: two different fields of one object do not depend on each other
+                    par_ = getattr(x, "_parent", None)
+                    if not (isinstance(par_, ast.Attribute) and par_.value is x and x.id in getattr(f, "params", ()) and not _is_callee(par_)):
+                        out.add(x.id)
                     if x.id not in seen_names:
                         seen_names.add(x.id)
                         for n in own_nodes(f.node):
@@ -612,7 +637,9 @@ def rule_r7(ctx, rule="R7"):
                     if isinstance(x, ast.Attribute):
                         tested.add(norm(x))
                     elif isinstance(x, ast.Name):
-                        tested.add(x.id)
+                        par_ = getattr(x, "_parent", None)
+                        if not (isinstance(par_, ast.Attribute) and par_.value is x and x.id in f.params and not _is_callee(par_)):
+                            tested.add(x.id)
             if isinstance(blk, ast.If):
                 tested |= _closure_names(f, [blk.test])  # … through the locals the test reads (an inlined predicate's result)
             tested -= {"None", "True", "False", "isinstance", "len", "hasattr", "getattr"}
